@@ -1,7 +1,8 @@
-(* C16 -- preconfigured converters: dumps never fails, loads(dumps(x, T), T) == x.  (partial: see below) *)
-From V.Model Require Import Base Templates Conv ConvSpec ConvLane Preconf.
+(* C16 -- preconfigured converters: dumps never fails, loads(dumps(x, T), T) == x.  (partial: the JSON converter inside the model; see below) *)
+From Coq Require Import Lia.
+From V.Model Require Import Base Templates Conv ConvSpec ConvLane Preconf PreconfSpec.
 From V.Gen Require Import GenSrc.
-From V.Proofs Require Import ConvPrim PreconfProofs ConvCfg.
+From V.Proofs Require Import SrcObligationsGen ConvPrim PreconfProofs ConvRoundtrip JsonRoundtrip ConvCfg.
 
 (* The JSON converter (preconf/json.py) is the plain Converter plus a context-free post-processing of its
    unstructured form ([jsonify]: bytes -> base85 text, abc.Set -> list); json.dumps accepts exactly
@@ -26,13 +27,154 @@ Proof.
 Qed.
 Print Assumptions C16_json_dumps_total.
 
-(* PARTIAL.  No theorem states loads(dumps(x, T), T) == x: it would need the serialisation library itself.
-   What is checked on every run instead (PRE lane): for json, pyyaml and msgspec -- the libraries importable
-   here -- dumps succeeds and the round trip returns a deeply equal value on generated worlds including bytes,
-   datetime, date, sets, enums, literals and non-string mapping keys; the model's [jsonify] equals the real
-   JSON converter's unstructured form and the model's [json_rt] equals json.loads(json.dumps(.)) on every
-   case; user hooks are honoured at top level, in a list, inside an attrs class and inside a dataclass (the
-   precedence rule itself is C07's theorem). *)
+(* "loads(dumps(x, unstructure_as=T), T) equals x", inside the model.  [wire] is dumps followed by the LIBRARY's loads on
+   what the JSON converter hands to json.dumps: bytes have become base85 text, sets and frozensets lists, tuples (also the
+   tuples of the tuple strategy) lists, every mapping key the string json writes for it.  For EVERY environment of classes and
+   enums, every type expression of the nested universe and every value x of it within JSON's limits ([jvalue]: exact classes at
+   every depth; Any-typed / untyped positions, literals and enum values that are None or atoms other than bytes; mapping keys
+   of str / int / float types, also behind NewType / Annotated; every attribute set), either validation mode on either
+   side, either strategy: if the converter unstructures x to u, then structuring [wire u] -- with the JSON converter's hooks:
+   e_coerce E PBytes is its bytes structure hook -- returns x itself (Leibniz: equal and of the same classes at every depth:
+   sets are sets again, tuples tuples, int keys ints, bytes bytes).
+   Assumed of Python and the base85 codec, not of cattrs (hypotheses 1-3, computed per case by the real functions in the PRE
+   lane): int(5) is 5 etc.; b85decode(b85encode(b)) == b and base85 text is a str; int / float of the string json.dumps writes
+   for an int / float key is that key.  Bool keys are finding F19 and outside [jkey_ty]. *)
+Definition cfgJ (dv tup : bool) : ccfg := mk_cfg true dv tup false.
+
+Theorem C16_json_roundtrip :
+  forall (E : env) (b85 keystr : val -> option val) (dvU dvS tup : bool),
+    (forall p e, p <> PBytes -> e_coerce E p (VAtom p e) = Ok (VAtom p e)) ->
+    (forall e, exists s, b85 (VAtom PBytes e) = Some (VAtom PStr s) /\ e_coerce E PBytes (VAtom PStr s) = Ok (VAtom PBytes e)) ->
+    (forall p e, p = PInt \/ p = PFloat -> exists s, keystr (VAtom p e) = Some (VAtom PStr s) /\ e_coerce E p (VAtom PStr s) = Ok (VAtom p e)) ->
+    (forall c cd, e_class E c = Some cd -> rt_class_ok (cfgJ dvS tup) c cd) ->
+    forall (n : nat) (t : ty) (x u : val),
+      jvalue E x t ->
+      unstructure E (cfgJ dvU tup) n t x = Ok u ->
+      structure E (cfgJ dvS tup) n t (wire b85 keystr u) = Ok x.
+Proof.
+  intros E b85 keystr dvU dvS tup Hco Hb Hk Henv.
+  apply json_roundtrip; [reflexivity | reflexivity | reflexivity | intros _; exact src_tuple_passes_kw_only_by_keyword | reflexivity | reflexivity
+                         | apply mk_cfg_recheck | apply mk_cfg_kw_last | exact Hco | exact Hb | exact Hk | exact Henv].
+Qed.
+Print Assumptions C16_json_roundtrip.
+
+(* never vacuous, and "dumps never fails" for the converter's half: for every value within the limits there IS an amount of
+   fuel (linear in the size of the value) for which unstructure returns, and the wire image of what it returns comes back as x *)
+Theorem C16_json_roundtrip_total :
+  forall (E : env) (b85 keystr : val -> option val) (dvU dvS tup : bool) (M : nat),
+    (forall p e, p <> PBytes -> e_coerce E p (VAtom p e) = Ok (VAtom p e)) ->
+    (forall e, exists s, b85 (VAtom PBytes e) = Some (VAtom PStr s) /\ e_coerce E PBytes (VAtom PStr s) = Ok (VAtom PBytes e)) ->
+    (forall p e, p = PInt \/ p = PFloat -> exists s, keystr (VAtom p e) = Some (VAtom PStr s) /\ e_coerce E p (VAtom PStr s) = Ok (VAtom p e)) ->
+    (forall c cd, e_class E c = Some cd -> rt_class_ok (cfgJ dvS tup) c cd) ->
+    (forall c cd nm ft, e_class E c = Some cd -> assoc (cd_types cd) nm = Some ft -> maxw ft <= M) -> 2 <= M ->
+    forall (t : ty) (x : val),
+      jvalue E x t -> maxw t <= M ->
+      exists n u, unstructure E (cfgJ dvU tup) n t x = Ok u /\ structure E (cfgJ dvS tup) n t (wire b85 keystr u) = Ok x.
+Proof.
+  intros E b85 keystr dvU dvS tup M Hco Hb Hk Henv HM HM2.
+  apply json_roundtrip_total; [reflexivity | reflexivity | reflexivity | intros _; exact src_tuple_passes_kw_only_by_keyword | reflexivity | reflexivity
+                               | apply mk_cfg_recheck | apply mk_cfg_kw_last | exact Hco | exact Hb | exact Hk | exact Henv | exact HM | exact HM2].
+Qed.
+Print Assumptions C16_json_roundtrip_total.
+
+(* the restriction on Any-typed positions cannot be dropped: bytes at an Any-typed position come back as text *)
+Theorem C16_bytes_at_any_refuted :
+  exists (E : env) (b85 keystr : val -> option val) (x u : val),
+    unstructure E (cfgJ true false) 5 TAny x = Ok u /\ structure E (cfgJ true false) 5 TAny (wire b85 keystr u) <> Ok x.
+Proof.
+  exists {| e_class := fun _ => None; e_enum := fun _ => []; e_coerce := fun _ v => Ok v; e_in := fun _ _ => Err EType; e_iter := fun _ => Err EType; e_len := fun _ => Err EType |},
+         (fun v => match v with VAtom PBytes e => Some (VAtom PStr (100 + e)) | _ => None end), (fun _ => None), (VAtom PBytes 7), (VAtom PBytes 7).
+  split; [reflexivity | vm_compute; discriminate].
+Qed.
+Print Assumptions C16_bytes_at_any_refuted.
+
+Local Open Scope N_scope.
+(* non-vacuity of the round trip: a class with a mapping keyed by ints whose values are sets of bytes, a heterogeneous
+   tuple holding a float-keyed mapping, and an untyped attribute; the hypotheses hold for a concrete codec, the value is a
+   value within the limits, and the theorem's conclusion computes *)
+Definition j_coerce (p : prim) (o : val) : result val :=
+  match p, o with
+  | PBytes, VAtom PStr s => if N.leb 100 s then Ok (VAtom PBytes (s - 100)) else Err EValue
+  | PInt, VAtom PStr s => if N.leb 200 s then Ok (VAtom PInt (s - 200)) else Err EValue
+  | PFloat, VAtom PStr s => if N.leb 300 s then Ok (VAtom PFloat (s - 300)) else Err EValue
+  | _, VAtom k e => if prim_eqb k p then Ok o else Err EValue
+  | _, _ => Err EType
+  end.
+Definition j_b85 (v : val) : option val := match v with VAtom PBytes e => Some (VAtom PStr (100 + e)) | _ => None end.
+Definition j_keystr (v : val) : option val :=
+  match v with VAtom PInt e => Some (VAtom PStr (200 + e)) | VAtom PFloat e => Some (VAtom PStr (300 + e)) | _ => None end.
+Definition j_fields : list (field val) :=
+  [ {| f_name := 1; f_alias := 1; f_dflt := None; f_init := true; f_kw_only := false; f_kw_seen := false; f_conv := false |};
+    {| f_name := 2; f_alias := 2; f_dflt := None; f_init := true; f_kw_only := false; f_kw_seen := false; f_conv := false |};
+    {| f_name := 3; f_alias := 3; f_dflt := Some VNone; f_init := true; f_kw_only := false; f_kw_seen := false; f_conv := false |} ].
+Definition j_cd : cdef :=
+  {| cd_fields := j_fields;
+     cd_types := [(1, TDict (TPrim PInt) (TSet (TPrim PBytes))); (2, TTuple [TPrim PBytes; TDict (TNewType 5 (TPrim PFloat)) (TOpt (TClass 1))])] |}.
+Definition j_env : env :=
+  {| e_class := fun c => if N.eqb c 1 then Some j_cd else None; e_enum := fun _ => [];
+     e_coerce := j_coerce; e_in := fun _ _ => Err EType; e_iter := fun _ => Err EType; e_len := fun _ => Err EType |}.
+Definition j_inner : val := VInst 1 [(1, VDict []); (2, VTuple [VAtom PBytes 2; VDict []]); (3, VAtom PStr 9)].
+Definition j_x : val :=
+  VInst 1 [(1, VDict [(VAtom PInt 4, VSet [VAtom PBytes 7; VAtom PBytes 8]); (VAtom PInt 5, VSet [])]);
+           (2, VTuple [VAtom PBytes 1; VDict [(VAtom PFloat 6, j_inner); (VAtom PFloat 3, VNone)]]); (3, VNone)].
+
+Example C16_json_roundtrip_runs :
+  unstructure j_env (cfgJ true false) 12 (TClass 1) j_x
+    = Ok (VDict [(VAtom PStr 1, VDict [(VAtom PInt 4, VSet [VAtom PBytes 7; VAtom PBytes 8]); (VAtom PInt 5, VSet [])]);
+                 (VAtom PStr 2, VTuple [VAtom PBytes 1; VDict [(VAtom PFloat 6, VDict [(VAtom PStr 1, VDict []); (VAtom PStr 2, VTuple [VAtom PBytes 2; VDict []]); (VAtom PStr 3, VAtom PStr 9)]);
+                                                                 (VAtom PFloat 3, VNone)]]);
+                 (VAtom PStr 3, VNone)])
+  /\ match unstructure j_env (cfgJ true false) 12 (TClass 1) j_x with
+     | Ok u => wire j_b85 j_keystr u
+               = VDict [(VAtom PStr 1, VDict [(VAtom PStr 204, VList [VAtom PStr 107; VAtom PStr 108]); (VAtom PStr 205, VList [])]);
+                        (VAtom PStr 2, VList [VAtom PStr 101; VDict [(VAtom PStr 306, VDict [(VAtom PStr 1, VDict []); (VAtom PStr 2, VList [VAtom PStr 102; VDict []]); (VAtom PStr 3, VAtom PStr 9)]);
+                                                                       (VAtom PStr 303, VNone)]]);
+                        (VAtom PStr 3, VNone)]
+               /\ forall dvS, structure j_env (cfgJ dvS false) 12 (TClass 1) (wire j_b85 j_keystr u) = Ok j_x
+     | _ => False end.
+Proof. split; [vm_compute; reflexivity|]. vm_compute. split; [reflexivity|]. intros [|]; reflexivity. Qed.
+
+Example C16_json_roundtrip_hypotheses :
+  (forall p e, p <> PBytes -> e_coerce j_env p (VAtom p e) = Ok (VAtom p e)) /\
+  (forall e, exists s, j_b85 (VAtom PBytes e) = Some (VAtom PStr s) /\ e_coerce j_env PBytes (VAtom PStr s) = Ok (VAtom PBytes e)) /\
+  (forall p e, p = PInt \/ p = PFloat -> exists s, j_keystr (VAtom p e) = Some (VAtom PStr s) /\ e_coerce j_env p (VAtom PStr s) = Ok (VAtom p e)) /\
+  (forall dvS c cd, e_class j_env c = Some cd -> rt_class_ok (cfgJ dvS false) c cd) /\
+  jvalue j_env j_x (TClass 1).
+Proof.
+  assert (Hsub : forall a e, (a + e - a = e)%N) by (intros; lia).
+  assert (Hle : forall a e, N.leb a (a + e) = true) by (intros; apply N.leb_le; lia).
+  split; [|split; [|split; [|split]]].
+  - intros p e Hp. destruct p; try reflexivity.
+  - intros e. exists (100 + e). split; [reflexivity|]. unfold j_env; cbn [e_coerce]; unfold j_coerce. rewrite Hle, Hsub. reflexivity.
+  - intros p e [->| ->]; [exists (200 + e) | exists (300 + e)]; (split; [reflexivity|]); unfold j_env; cbn [e_coerce]; unfold j_coerce; rewrite Hle, Hsub; reflexivity.
+  - intros dvS c cd H. cbn in H. destruct (N.eqb c 1); [|discriminate]. inversion H; subst cd. split.
+    + constructor; cbn.
+      * repeat constructor; cbn; intuition discriminate.
+      * repeat constructor; cbn; intuition discriminate.
+      * intros f [<-|[<-|[<-|[]]]]; reflexivity.
+      * reflexivity.
+      * intros f [<-|[<-|[<-|[]]]]; cbn; intros; reflexivity.
+    + intros f [<-|[<-|[<-|[]]]]; split; reflexivity.
+  - unfold j_x, j_inner.
+    repeat first
+      [ reflexivity
+      | apply Forall_nil | apply Forall_cons | apply Forall2_nil | apply Forall2_cons | split
+      | apply JPrim | apply JOptNone
+      | (eapply JClass; [reflexivity | reflexivity |])
+      | (apply JDict; [reflexivity | | reflexivity])
+      | (apply JSet; [reflexivity | | reflexivity])
+      | apply JTuple
+      | (apply JAny; reflexivity)
+      | (apply JNewType; apply JPrim)
+      | (apply JOptSome)
+      | progress cbn [fst snd field_ty j_cd cd_types assoc N.eqb Pos.eqb] ].
+Qed.
+Local Close Scope N_scope.
+
+(* STILL PARTIAL.  The serialisation library itself is data: [jsonable] / [json_rt] are its model, compared with the real
+   json.dumps / json.loads on every case of the PRE lane, like [jsonify] with the real converter's unstructured form and
+   the model's structure side (the plain Converter's structure with the bytes hook's table) with the real loads.  datetime /
+   date, Counter, literals with enums, the union passthrough, pyyaml and msgspec: PRE lane only (round trip + user hooks). *)
 
 Local Open Scope N_scope.
 Example C16_nonvacuous :
